@@ -241,9 +241,9 @@ def fb_plan(tier, seed, binary, sub, stalls, trials_q, trials_t, threads_q=(1, 2
             k += 1
             runs.append(fb(binary, "mon", sub, seed, k, thr, mode=mode, preempt=1, trials=trials, **extra))
     if tsan:
-        for thr in ((4,) if q else (2, 4, 8)):
+        for thr in (((2, 4) if tsan_judged else (4,)) if q else (2, 4, 8)):
             k += 1
-            r_ = fb(binary, "tsan", sub, seed, k, thr, mode="monitor", trials=max(3, trials // 4), timeout=900, **extra)
+            r_ = fb(binary, "tsan", sub, seed, k, thr, mode="monitor", trials=max(3, trials // (2 if tsan_judged else 4)), timeout=900, **extra)
             # payload visibility is a verdict only where the property statement promises it (C03, C11); elsewhere the
             # reports are tallied in the evidence
             r_.tsan_judged = tsan_judged
